@@ -481,6 +481,114 @@ impl Sub for HostileClaims {
   }
 }
 
+// ---------------------------------------------------------------- (e') authentic tokens whose plaintext is arbitrary BYTES
+
+/// A token made by another implementation (the harness's transcription of the specification) may seal any byte string:
+/// text that is not UTF-8, truncated multi-byte characters, surrogates, NULs, JSON of any top-level type. Such a token
+/// passes authentication, so everything behind it (UTF-8 conversion, JSON parsing, claim handling) sees the bytes.
+#[derive(Clone, Debug, Serialize, Deserialize)]
+pub struct BytesCase {
+  proto: Proto,
+  layer: Layer,
+  #[serde(with = "crate::gen::hexser")]
+  plaintext: Vec<u8>,
+  footer: Option<String>,
+}
+
+pub struct ForeignPlaintext;
+
+pub fn reference_token(p: Proto, seed: &[u8; 32], plaintext: &[u8], footer: &[u8]) -> Option<String> {
+  use crate::specref::{self, RefSecret};
+  let v = p.version();
+  if p.is_local() {
+    return Some(specref::local_encrypt(v, seed, &[9u8; 32][..p.nonce_len().min(32)], plaintext, footer, b""));
+  }
+  let (sk, pk) = keys::key_bytes(p, seed);
+  let unc;
+  let rs = match p {
+    Proto::V1P => RefSecret::Rsa(&sk),
+    Proto::V3P => {
+      unc = keys::p384_from_seed(seed).2;
+      RefSecret::P384 { scalar: &sk, uncompressed: &unc, compressed: &pk }
+    }
+    _ => RefSecret::Ed { seed: &sk[..32], public: &pk },
+  };
+  specref::public_sign(v, &rs, plaintext, footer, b"").ok()
+}
+
+impl Sub for ForeignPlaintext {
+  type Case = BytesCase;
+  fn name(&self) -> String {
+    "C09/authentic-token-arbitrary-bytes".into()
+  }
+  fn check(&self, c: &BytesCase, cl: &mut Classes) -> Verdict {
+    let footer = c.footer.clone().unwrap_or_default();
+    let token = match reference_token(c.proto, &SEED, &c.plaintext, footer.as_bytes()) {
+      Some(t) => t,
+      None => return Verdict::Discard,
+    };
+    cl.tag(format!("{}:{}", c.proto.label(), c.layer.label()));
+    let utf8 = std::str::from_utf8(&c.plaintext).is_ok();
+    cl.tag(if !utf8 { "plaintext:not-utf8" } else if serde_json::from_slice::<serde_json::Value>(&c.plaintext).is_ok() { "plaintext:json" } else { "plaintext:text" });
+    cl.nontrivial(!utf8 || c.layer != Layer::Core);
+    verdict(parse_any(c.proto, c.layer, &token, c.footer.as_deref()), &format!("{} {} parse of an authentic token sealing the bytes {}", c.proto.label(), c.layer.label(), hex::encode(&c.plaintext)))
+  }
+}
+
+/// byte strings around the edges of UTF-8
+const UTF8_EDGES: [&[u8]; 22] = [
+  b"\x80", b"\xbf", b"\xc0\x80", b"\xc1\xbf", b"\xc2", b"\xe0\x80\x80", b"\xe0\x9f\xbf", b"\xed\xa0\x80", b"\xed\xbf\xbf", b"\xef\xbf\xbe", b"\xef\xbb\xbf", b"\xf0\x80\x80\x80", b"\xf0\x8f\xbf\xbf",
+  b"\xf4\x90\x80\x80", b"\xf5\x80\x80\x80", b"\xf8\x88\x80\x80\x80", b"\xfe", b"\xff", b"\xe2\x82", b"\xf0\x9f\xa6", b"\x00", b"\xc3\x28",
+];
+
+fn bytes_case() -> BoxedStrategy<BytesCase> {
+  let plaintext = prop_oneof![
+    3 => vec(any::<u8>(), 0..200),
+    // text or a JSON document with one edge sequence spliced in at any place (also inside a string, a key, a number)
+    6 => (prop_oneof![gen::doc_text().prop_map(|t| t.render()), gen::unicode(40), Just("{\"exp\":\"2999-01-01T00:00:00Z\",\"sub\":\"x\"}".to_string())], any::<u16>(), any::<u16>(), any::<bool>()).prop_map(|(t, e, at, replace)| {
+      let mut b = t.into_bytes();
+      let edge = UTF8_EDGES[pick(e, UTF8_EDGES.len())];
+      let i = pick(at, b.len() + 1);
+      if replace && i < b.len() {
+        b.splice(i..(i + edge.len()).min(b.len()), edge.iter().copied());
+      } else {
+        b.splice(i..i, edge.iter().copied());
+      }
+      b
+    }),
+    // valid text of every kind, valid JSON of every top-level type
+    2 => gen::doc_text().prop_map(|t| t.render().into_bytes()),
+    1 => gen::json_value(3).prop_map(|v| v.to_string().into_bytes()),
+    // a valid document cut inside a multi-byte character
+    1 => (gen::unicode(30), any::<u16>()).prop_map(|(t, at)| {
+      let b = t.into_bytes();
+      let n = pick(at, b.len() + 1);
+      b[..n].to_vec()
+    }),
+  ];
+  (any::<u16>(), any::<u16>(), plaintext, prop_oneof![3 => Just(None), 1 => Just(Some("kid".to_string()))])
+    .prop_map(|(p, l, plaintext, footer)| BytesCase { proto: Proto::ALL[pick(p, 8)], layer: Layer::ALL[pick(l, 3)], plaintext, footer })
+    .boxed()
+}
+
+fn bytes_grid() -> impl Iterator<Item = BytesCase> {
+  let mut v = vec![];
+  for proto in Proto::ALL {
+    for layer in Layer::ALL {
+      for e in UTF8_EDGES {
+        v.push(BytesCase { proto, layer, plaintext: e.to_vec(), footer: None });
+        let mut inside = b"{\"sub\":\"".to_vec();
+        inside.extend_from_slice(e);
+        inside.extend_from_slice(b"\"}");
+        v.push(BytesCase { proto, layer, plaintext: inside, footer: None });
+      }
+      v.push(BytesCase { proto, layer, plaintext: vec![], footer: None });
+      v.push(BytesCase { proto, layer, plaintext: vec![0xff; 4096], footer: Some("kid".into()) });
+    }
+  }
+  v.into_iter()
+}
+
 const HOSTILE_TIMES: [&str; 28] = [
   "9999-12-31T23:59:59-01:00", "9999-12-31T23:59:59-23:59", "9999-12-31T23:59:59.999999999-00:01", "9999-12-31T23:59:59Z", "9999-12-31T23:59:60Z",
   "0000-01-01T00:00:00+00:01", "0000-01-01T00:00:00+23:59", "0000-01-01T00:00:00Z", "0000-12-31T23:59:59-23:59", "0001-01-01T00:00:00+14:00",
@@ -593,7 +701,7 @@ pub fn fuzz_seeds() -> Vec<Vec<u8>> {
 // ----------------------------------------------------------------
 
 pub fn subs() -> Vec<Box<dyn DynSub>> {
-  vec![Box::new(ByLength), Box::new(Cuts), Box::new(AnyText), Box::new(HexKeys), Box::new(HostileClaims), Box::new(DeepInputs)]
+  vec![Box::new(ByLength), Box::new(Cuts), Box::new(AnyText), Box::new(HexKeys), Box::new(HostileClaims), Box::new(DeepInputs), Box::new(ForeignPlaintext)]
 }
 
 pub fn run(ctx: &Ctx) -> EvidenceMeta {
@@ -616,6 +724,8 @@ pub fn run(ctx: &Ctx) -> EvidenceMeta {
     Box::new(|| ctx.prop(&HexKeys, hex_case(), ctx.n(5_000, 200_000))),
     Box::new(|| ctx.fuzz_inputs(&AnyText, "fz_anytoken", fuzz_decode)),
     Box::new(|| ctx.enumerate(&HostileClaims, hostile_grid(), false)),
+    Box::new(|| ctx.enumerate(&ForeignPlaintext, bytes_grid(), false)),
+    Box::new(|| ctx.prop(&ForeignPlaintext, bytes_case(), ctx.n(12_000, 300_000))),
     Box::new(|| {
       if !ctx.is_child() {
         ctx.enumerate(&DeepInputs, std::iter::once(DeepCase { index: u32::MAX }), false)
@@ -630,6 +740,7 @@ pub fn run(ctx: &Ctx) -> EvidenceMeta {
            hex-key-strings: Key::<N>::try_from for N in {24,32,48,49,64} on valid/invalid hex of every length 0..=200 (exhaustive), valid hex of every length to 1100 and around every power of two to 2^20, plus generated strings to 3000 characters; \
            arbitrary-text: generated Unicode, 0-6 segments, right header + base64-alphabet noise / random bytes / padding / trailing dots, footer segments that decode to JSON documents (key sets, deep nesting, many empty containers), their unbalanced relatives and special strings, 1 MiB inputs; \
            authentic-token-hostile-claims: authentically encrypted/signed payloads whose exp/nbf/other members carry calendar extremes (year 0000/9999 with offsets, leap seconds, 40 fraction digits), any well-formed or ill-formed timestamp, arbitrary JSON, or that are not objects / not JSON at all. \
+           authentic-token-arbitrary-bytes: tokens sealed by the harness's transcription of the specification around byte strings that are not UTF-8 (every class of ill-formed sequence, spliced into text, JSON strings, keys and numbers at any place; documents cut inside a character), NULs, JSON of every top-level type - they pass authentication, so UTF-8 conversion, JSON parsing and claim handling see the bytes; \
            deep inputs: footer segments and authentic payloads nested 200 .. 1 000 000 levels deep, parsed on a 2 MiB-stack thread of a helper process that announces each case - if the helper dies, the announced case is the violation. \
            The whole run happens after application callbacks (validators, Serialize impls) have panicked in this process, on a worker thread and on the main one. \
            Oracle: catch_unwind around the entry point; any unwind is a violation keyed by panic location. \
